@@ -47,9 +47,15 @@ fn fresh_name(t: &mut Tape, used: &mut HashSet<String>, interesting: &mut bool) 
             return cand;
         }
     }
-    let n = format!("n{}", used.len());
-    used.insert(n.clone());
-    n
+    // fallback: the first free `n<k>` (the name must stay injective)
+    let mut k = used.len();
+    loop {
+        let n = format!("n{k}");
+        if used.insert(n.clone()) {
+            return n;
+        }
+        k += 1;
+    }
 }
 
 fn random_map(t: &mut Tape, base: &NameMap) -> (NameMap, bool) {
